@@ -19,7 +19,8 @@ RULE = ("int: for each target type u8..i64 x boundary, debug-assert-violating an
         "ignore_case on/off, ASCII and non-ASCII names, values = declared names with case flips and foldings; "
         "store: random argument sets (typed by value_parser!(T)), raw values valid and invalid, random sequences of "
         "try_get_one/try_get_many/try_remove_one/try_remove_many/ids with right, wrong and unknown ids and types. "
-        "stored (round 2, full parser): random command trees with at least one ranged-i64 / bool / count argument "
+        "stored (round 2, full parser; round 5: 15% of the SetTrue/SetFalse options take an optional value, num_args 0..1, "
+        "spelled --flag / --flag=true|false / -f=false / -f false): random command trees with at least one ranged-i64 / bool / count argument "
         "(vp/gen_cmd.py), defaults, env values and subcommands as generated, 6 mostly-valid or mutated lines each; "
         "non-trivial = a successful parse in which a reported value was checked against such a parser.  "
         "stored_wide (round 4, full parser): random command trees in which arguments (and the external-subcommand "
@@ -950,7 +951,8 @@ def gen_stored(tier, rng):
     n = 4000 if tier == "quick" else 60000
     # commands with at least one ranged-integer / bool / count argument; mostly-valid lines (so that values are
     # stored), defaults and env values as generated, some mutation (so that values outside the language occur)
-    return parse_streams.gen_cases(rng, n, None, per_cmd=6, p_mutate=0.25, safe_p=0.8, want=_has_typed_arg)
+    # flag_values: SetTrue / SetFalse options with num_args(0..=1) (`--flag=false` stores "false", which the bool parser accepted)
+    return parse_streams.gen_cases(rng, n, {"flag_values": 0.15}, per_cmd=6, p_mutate=0.25, safe_p=0.8, want=_has_typed_arg)
 
 
 # ----------------------------------------------------------------- stream `stored_wide` (round 4)
